@@ -967,6 +967,48 @@ func boundedAbove(b *ssa.BasicBlock, v ssa.Value) bool {
 			}
 		}
 	}
+	// the bound is established by a helper of the module that was given the value and whose boolean
+	// result has been tested: `if _, ok := repeatSize(len(s), i); !ok { return error }`
+	for _, f := range pathFacts(b) {
+		hf, h, args := helperFacts(f)
+		if h == nil {
+			continue
+		}
+		proots := map[ssa.Value]bool{}
+		for i, a := range args {
+			if i < len(h.Params) && derives(a) {
+				proots[h.Params[i]] = true
+			}
+		}
+		if len(proots) == 0 {
+			continue
+		}
+		pderives := func(x ssa.Value) bool {
+			for y := range backSlice(x) {
+				if proots[y] {
+					return true
+				}
+			}
+			return false
+		}
+		for _, g := range hf {
+			bo, ok := g.Cond.(*ssa.BinOp)
+			if !ok {
+				continue
+			}
+			xr, yr := pderives(bo.X), pderives(bo.Y)
+			switch bo.Op {
+			case token.LSS, token.LEQ:
+				if (xr && !yr && g.Truth) || (yr && !xr && !g.Truth) {
+					return true
+				}
+			case token.GTR, token.GEQ:
+				if (xr && !yr && !g.Truth) || (yr && !xr && g.Truth) {
+					return true
+				}
+			}
+		}
+	}
 	return false
 }
 
